@@ -196,21 +196,35 @@ class GlobalContext:
                     raise ImportError("attempted relative import above parent package")
                 ctx_name = ctx_name[0:idx]
             ctx_name += f".{module_name}"
-            module_info = [ctx_name, f"{path}/{module_path}.py", path]
             path += f"/{module_path}"
             file_paths.append([ctx_name, f"{path}/__init__.py", path])
-            file_paths.append(module_info)
+            # a single-file module resolves its own relative imports against the directory it lies in
+            file_paths.append([ctx_name, f"{path}.py", path.rsplit("/", 1)[0]])
             module_name = ctx_name[ctx_name.find(".") + 1 :]
 
         else:
             if self.rel_import_path is not None and self.rel_import_path.startswith("apps/"):
                 ctx_name = f"apps.{module_name}"
                 file_paths.append([ctx_name, f"apps/{module_path}/__init__.py", f"apps/{module_path}"])
-                file_paths.append([ctx_name, f"apps/{module_path}.py", f"apps/{module_path}"])
+                # (a single-file app keeps its own name as marker; a file inside an app package resolves
+                # relative imports against its directory)
+                file_paths.append(
+                    [
+                        ctx_name,
+                        f"apps/{module_path}.py",
+                        f"apps/{module_path}".rsplit("/", 1)[0] if "/" in module_path else f"apps/{module_path}",
+                    ]
+                )
 
             ctx_name = f"modules.{module_name}"
             file_paths.append([ctx_name, f"modules/{module_path}/__init__.py", f"modules/{module_path}"])
-            file_paths.append([ctx_name, f"modules/{module_path}.py", None])
+            file_paths.append(
+                [
+                    ctx_name,
+                    f"modules/{module_path}.py",
+                    f"modules/{module_path}".rsplit("/", 1)[0] if "/" in module_path else None,
+                ]
+            )
 
         #
         # now see if we have loaded it already
